@@ -256,6 +256,58 @@ def run_proc(rp, mode, out, err, code):
     return {'out': toks(o, 'o'), 'err': toks(e, 'e'), 'ret': ret, 'val': val, 'exc': exc[0]}
 
 
+def run_proc_env(rp, base, reqs):
+    """a stream of proc / shell requests on ONE worker: per request the values its child sees for
+    the probe variables RPV_K1..RPV_K4 (None = unset).  base: [[k, v]] in the worker's task environment"""
+    w = make_worker(rp, 1, 0)
+    for k in list(w._task_env):
+        if k.startswith('RPV_K'): del w._task_env[k]
+    for k, v in base:
+        w._task_env['RPV_K%d' % k] = str(v)
+    script = '; '.join('echo "o${RPV_K%d-U}"' % k for k in (1, 2, 3, 4))
+    seen = []
+    for mode, env in reqs:
+        e = {'RPV_K%d' % k: str(v) for k, v in env}
+        if mode == 'task.proc':
+            task = {'uid': 'req.0', 'description': {'executable': '/bin/sh', 'arguments': ['-c', script], 'environment': e}}
+            o, _, ret, _, exc = w._dispatch_proc(task)
+        else:
+            task = {'uid': 'req.0', 'description': {'command': script, 'environment': e}}
+            o, _, ret, _, exc = w._dispatch_shell(task)
+        if isinstance(o, bytes): o = o.decode()
+        vals = [None if x[1:] == 'U' else int(x[1:]) for x in (o or '').split() if x.startswith('o')]
+        seen.append(vals if ret == 0 and len(vals) == 4 else 'failed: %r %r' % (ret, exc))
+    return seen
+
+
+def proc_env_part(ctx, rp):
+    rng = ctx.rng
+    ops, impl = [], []
+    cases = [([], [('task.proc', [[1, 5]]), ('task.proc', []), ('task.shell', [])]),
+             ([[2, 7]], [('task.shell', [[2, 1]]), ('task.proc', [[3, 3]]), ('task.shell', [])])]
+    for _ in range(ctx.n(25, 600)):
+        base = [[k, rng.randint(1, 9)] for k in rng.sample([1, 2, 3, 4], rng.choice([0, 0, 1, 2]))]
+        reqs = [(rng.choice(['task.proc', 'task.shell']),
+                 [[k, rng.randint(1, 9)] for k in rng.sample([1, 2, 3, 4], rng.choice([0, 1, 1, 2]))]) for _ in range(rng.randint(2, 5))]
+        cases.append((base, reqs))
+    for base, reqs in cases:
+        seen = run_proc_env(rp, base, reqs)
+        ops.append({'op': 'proc_env', 'base': base, 'keys': [1, 2, 3, 4], 'reqs': [e for m, e in reqs]})
+        impl.append(seen)
+        ctx.case({'proc_env': [m for m, e in reqs], 'base': base, 'envs': [e for m, e in reqs]},
+                 nontrivial=any(e for m, e in reqs[:-1]))
+        b = dict((k, v) for k, v in base)
+        for i, ((m, e), got) in enumerate(zip(reqs, seen)):
+            want = dict(b); want.update(dict((k, v) for k, v in e))
+            if got != [want.get(k) for k in (1, 2, 3, 4)]:
+                ctx.fail('dispatch:request-sees-environment-of-an-earlier-request',
+                         'request %d (%s, own variables %s, worker base %s) sees %s; earlier requests set %s'
+                         % (i, m, e, base, got, [x for _, x in reqs[:i]]),
+                         {'kind': 'proc_env', 'base': base, 'reqs': [[m, e] for m, e in reqs]})
+                break
+    common.compare(ctx, 'raptor', ops, impl, what='real Worker._dispatch_proc/_dispatch_shell streams on one worker: environment every child sees')
+
+
 # -- (D) ---------------------------------------------------------------------------------------
 class FakeMP(object):
     """cooperative stand-ins for multiprocessing: a process is a controlled thread"""
@@ -603,6 +655,7 @@ def run(ctx):
         if r['ret'] != code or r['out'] != out or r['err'] != err or r['exc'] is not None:
             ctx.fail('dispatch:process-result-differs', '%s for exit %d out %s err %s' % (r, code, out, err), {'kind': 'proc', 'args': [mode, out, err, code]})
     ctx.obligation('proc/shell dispatchers report exit code and captured output of the child', 'tie', True, '')
+    proc_env_part(ctx, rp)
     # (D)
     flag = life_flag(rp)
     lops, limpl = [], []
@@ -641,6 +694,16 @@ LIFE_CORPUS = [
 def replay(ctx, data):
     rp = rpload.load()
     i = data['input']
+    if i['kind'] == 'proc_env':
+        reqs = [(m, e) for m, e in i['reqs']]
+        seen = run_proc_env(rp, i['base'], reqs)
+        b = dict((k, v) for k, v in i['base'])
+        ok = True
+        for (m, e), got in zip(reqs, seen):
+            want = dict(b); want.update(dict((k, v) for k, v in e))
+            ok = ok and got == [want.get(k) for k in (1, 2, 3, 4)]
+        print('observed:', seen)
+        return ok
     if i['kind'] == 'life':
         obs, done, answers = run_life(rp, i['choices'], ctx.scratch)
         bad = life_monitor(obs, answers); print(obs[-1], bad); return not bad
